@@ -19,7 +19,8 @@ RULE = (
     "enableBLOB x 3 values, pingReply, 4 new*Vector kinds) x device name {A, B, none, unknown} x sender {each client - registered "
     "or not -, each device, none} is applied to a real Router and the multiset of (endpoint, message) deliveries compared with the "
     "reference router: every registered device != sender that accepts the name exactly once, no client ever receives a device-bound "
-    "message, getProperties relayed per C05's rule, nothing raised. 'history': Hypothesis histories (<= 40 ops, <= 6 clients) of "
+    "message, getProperties relayed per C05's rule, nothing raised; recording endpoints are containers of what they received (falsy while empty); 'unreferenced': devices the "
+    "caller keeps no reference to stay registered across a gc pass. 'history': Hypothesis histories (<= 40 ops, <= 6 clients) of "
     "register-device/register-client/unregister/enableBLOB/client-send. Non-trivial: >= 2 devices registered, sender given, and at "
     "least one registered device that must NOT receive the message."
 )
